@@ -111,7 +111,8 @@ fn verif_sweep_c04_overlapping_calls_get_their_own_replies() {
     let mut count = 0;
     for order in &[[1u16, 2, 3], [1, 3, 2], [2, 1, 3], [2, 3, 1], [3, 1, 2], [3, 2, 1]] {
         for &one_read in &[false, true] {
-            run(*order, one_read);
+            let o = *order;
+            with_watchdog(format!("answer order {:?} one_read={}", o, one_read), 60, move || run(o, one_read));
             count += 1;
         }
     }
